@@ -236,6 +236,37 @@ namespace c13
     constexpr long long SENTINEL = -77770000;
     constexpr long long GUARDVAL = -88880000;
 
+    // elementwise comparison of two arrays (either may be a maybe) with the harness' own odometer
+    template <typename lhs_t, typename rhs_t>
+    bool arrays_equal(const lhs_t& lhs, const rhs_t& rhs)
+    {
+        if constexpr (meta::is_maybe_v<lhs_t>) {
+            if (!nm::has_value(lhs)) return false;
+            return arrays_equal(nm::unwrap(lhs), rhs);
+        } else if constexpr (meta::is_maybe_v<rhs_t>) {
+            if (!nm::has_value(rhs)) return false;
+            return arrays_equal(lhs, nm::unwrap(rhs));
+        } else if constexpr (meta::is_num_v<lhs_t> || meta::is_num_v<rhs_t>) {
+            return false;
+        } else {
+            const auto ls = nm::shape(lhs);
+            const auto rs = nm::shape(rhs);
+            auto lv = vh::to_vec(ls), rv = vh::to_vec(rs);
+            if (lv != rv) return false;
+            using le_t = meta::get_element_type_t<lhs_t>;
+            using re_t = meta::get_element_type_t<rhs_t>;
+            if constexpr (!std::is_same_v<le_t, re_t>) return false;
+            else {
+                for (vh::Odo o(lv); !o.end; o.next()) {
+                    le_t x = nm::apply_at(lhs, o.idx);
+                    re_t y = nm::apply_at(rhs, o.idx);
+                    if (!same_bits(x, y)) return false;
+                }
+                return true;
+            }
+        }
+    }
+
     // runs all launches of a case on one (unwrapped, non-num) view
     template <bool WITH_RAW, typename view_t>
     void run_view(vh::Args& in, vh::Out& out, const view_t& view)
@@ -261,6 +292,18 @@ namespace c13
             const auto kernel_operands = to_utl_tuple(gpu_args_pack, std::make_index_sequence<NARGS>{});
             ShapeMem shapemem;
             [[maybe_unused]] const auto raw_operands = to_raw_tuple(shapemem, gpu_args_pack, std::make_index_sequence<NARGS>{});
+            // ---- extraction check on the host side: apply(composition, device operands), evaluated lazily on one host thread,
+            //      must already be the view.  If it is not, no launch can reproduce host evaluation: report and skip the launches.
+            {
+                const auto extracted = fn::apply(f, kernel_operands);
+                out.tok("X");
+                vh::emit_array(out, extracted);
+                if (!arrays_equal(host, extracted)) {
+                    out.tok("NL 0 0 -");
+                    return;
+                }
+            }
+
             // ---- context_t::run_
             using out_element_t = meta::get_element_type_t<host_t>;
             const auto out_size = (size_t)nm::size(host);
